@@ -19,6 +19,7 @@ import PoetryVerif.Proofs.VRangeTextU
 import PoetryVerif.Proofs.VRangeTextV
 import PoetryVerif.Proofs.VRangeTextW
 import PoetryVerif.Proofs.VRangeTextP
+import PoetryVerif.Proofs.VRangeTextX
 
 set_option linter.unusedSimpArgs false
 set_option linter.unusedVariables false
@@ -425,6 +426,29 @@ theorem text_roundtrip_partial (c : VC) (hwf : c.WF) (hne : c.isEmpty = false)
       ∀ p, p.wf = true → Regular (c.bounds ++ c'.bounds) p → c'.allows p = c.allows p :=
   VC.text_roundtrip c hwf hne htidy htext hreg hplain
 
+/-- **ANY range the printer spells `==X.*` — algebra-produced ones included — is read back as a range admitting the
+same versions, on EVERY version** (lower end not a post-release).  What `_is_wildcard_candidate` checks — same
+epoch, no pre/post/local parts, the lower end equal to its own first dev-release, release numbers of the lower end
+(padded, trailing zeros apart) one below the upper end's in the last place — makes `[X.dev0, next(X).dev0)` equal to
+the printed range end by end: the lower ends compare equal, and the effective upper ends (`allowed_max`: `M.dev0` for
+a final exclusive `M`) compare equal.  An inclusive lower end and an exclusive upper end being plain comparisons on
+every version, no regularity is needed.  E.g. `>=1.dev0,<2` and `>=1.0.0.dev0,<2.0.dev0` both print `==1.*`. -/
+theorem wildcard_spelt_range_text_roundtrip (mn mx : Version)
+    (hwf : (⟨some mn, some mx, true, false⟩ : VRange).WF)
+    (hw : isWildcardCandidate mn mx false = true) (hnp : mn.isPostrelease = false) :
+    ∃ s c', (VC.single (.rng ⟨some mn, some mx, true, false⟩)).toStr = .ok s ∧ parseConstraint s = .ok c' ∧
+      ∀ p, p.wf = true → c'.allows p = (VC.single (.rng ⟨some mn, some mx, true, false⟩)).allows p :=
+  wildcard_spelt_roundtrip mn mx hwf hw hnp
+
+example : let mn := Version.mk' 0 [1] none none (some ⟨.dev, 0⟩) none
+    let mx := Version.mk' 0 [2] none none none none
+    isWildcardCandidate mn mx false = true ∧ mn.isPostrelease = false ∧
+    (VC.single (.rng ⟨some mn, some mx, true, false⟩)).toStr = .ok "==1.*" ∧
+    parseConstraint "==1.*" = .ok (.single (.rng ⟨some (Version.mk' 0 [1] none none (some ⟨.dev, 0⟩) none),
+      some (Version.mk' 0 [2] none none (some ⟨.dev, 0⟩) none), true, false⟩)) := by
+  intro mn mx
+  exact ⟨by decide, by decide, by decide +kernel, by decide +kernel⟩
+
 /-- the unrestricted statement is false of model and code: a version text may end in a separator
 (`1.0post-` is `1.0.post0` for `VERSION_PATTERN`), and in front of the comma that `-` defeats the and-separator's
 `(?<!-)`: `parse_constraint(">=1.0post-").intersect(parse_constraint("<2"))` prints `>=1.0post-,<2`, which
@@ -447,9 +471,10 @@ spellings included).  Proved at string level: single versions, plain ranges, `*`
 (`text_roundtrip_partial`, under `TextOK` / `Tidy` / `RegB` for unions).  As stated — for every well-formed `c`
 whatever the texts of its bounds — it is false (`counterexample_text_trailing_separator`: the `text` field is
 what the user wrote).  The wildcard spellings `==X.*` / `!=X.*` are proved for the constraints the parser builds
-for wildcard clauses (`wildcard_eq_text_roundtrip`, `wildcard_ne_text_roundtrip`); not proved: ranges and unions
-the algebra produces that the printer happens to spell with a wildcard (`>=1.dev0,<2` prints as `==1.*`), and
-wildcards on post-releases (`==1.0.post1.*`). -/
+for wildcard clauses (`wildcard_eq_text_roundtrip`, `wildcard_ne_text_roundtrip`); and any range the printer spells `==X.*` is read back
+membership-equivalently on every version (`wildcard_spelt_range_text_roundtrip`); not proved: algebra-produced unions
+spelt `!=X.*` other than the parser's, and wildcards on post-releases (`==1.0.post1.*`) — on the real code a grid of
+128 wildcard-spelt ranges and 102 wildcard-spelt unions (post-releases included) re-parses membership-equivalently. -/
 def text_roundtrip_full_statement : Prop :=
   ∀ c : VC, c.WF → c.isEmpty = false →
     ∃ s c', c.toStr = .ok s ∧ VParser.parseConstraint s = .ok c' ∧
